@@ -81,8 +81,10 @@ impl G {
                 }
             } else if r < 86 {
                 let d = self.pick_depth(true).unwrap();
-                if d == depth as u64 && self.arity == 1 {
-                    self.body.push(json!({"o":"const","v":8}));
+                if d == depth as u64 {
+                    for a in 0..self.arity {
+                        self.body.push(json!({"o":"const","v":8 + 10 * a}));
+                    }
                 }
                 self.body.push(json!({"o":"br","d":d}));
                 *budget -= 1;
@@ -104,8 +106,8 @@ impl G {
                     return true;
                 }
             } else if r < 96 {
-                if self.arity == 1 {
-                    self.body.push(json!({"o":"const","v":9}));
+                for a in 0..self.arity {
+                    self.body.push(json!({"o":"const","v":9 + 10 * a}));
                 }
                 self.body.push(json!({"o":"return"}));
                 *budget -= 1;
@@ -223,7 +225,12 @@ pub fn gen_cases(seed: u64, n: usize, max_len: i32, max_depth: usize, start_id: 
     let mut rng = StdRng::seed_from_u64(seed);
     let mut id = start_id;
     while out.len() < n {
-        let arity = if rng.gen_range(0..4) == 0 { 1 } else { 0 };
+        // result arity 0, 1 or 2 (multi-value)
+        let arity = match rng.gen_range(0..8) {
+            0 => 1,
+            1 => 2,
+            _ => 0,
+        };
         let mut g = G { rng: StdRng::seed_from_u64(rng.gen()), body: vec![], kinds: vec![], nop: 0, ncond: 0, arity, max_depth };
         let mut budget = rng.gen_range(3..=max_len);
         let mut transferred = false;
@@ -234,8 +241,10 @@ pub fn gen_cases(seed: u64, n: usize, max_len: i32, max_depth: usize, start_id: 
                 break;
             }
         }
-        if arity == 1 && !transferred {
-            g.body.push(json!({"o":"const","v":7}));
+        if !transferred {
+            for a in 0..arity {
+                g.body.push(json!({"o":"const","v":7 + 10 * a}));
+            }
         }
         g.body.push(json!({"o":"end"}));
         let body = g.body;
